@@ -96,6 +96,7 @@ func opAmount(_ *HState, a Event) Event {
 }
 
 func runC17(c *Ctx) {
+	c.Conc = true // stateless calls are also replayed from several goroutines at once
 	r := c.Rng
 	newAmt := func(f float64) { c.Call(Event{"op": "NewAmount", "fbits": f64bits(f)}) }
 	both := func(f float64) { newAmt(f); newAmt(-f) }
